@@ -426,7 +426,11 @@ fn is_real_svg(events: &InputList) -> bool {
             // the value "http://www.w3.org/2000/svg"
             if el.name == "svg" {
                 if let Some(val) = el.get_attr("xmlns") {
-                    return val == "http://www.w3.org/2000/svg";
+                    // only a list whose *outermost* element is this <svg> is a real SVG
+                    // document; with further elements after it, it is svgdx content which
+                    // embeds one (handled where that element is processed)
+                    let end = ev.alt_idx.unwrap_or(ev.index);
+                    return val == "http://www.w3.org/2000/svg" && !events.has_element_after(end);
                 }
             }
             return false;
